@@ -130,7 +130,17 @@ fn gen_items(rng: &mut Rng, q: Q, w: u8, json: bool) -> (Vec<Item>, Option<u64>)
     let i = rng.below(items.len() as u64) as usize;
     let nc = q.nd0() << (q.dim() as u64 * items[i].d);
     let wmax: u64 = if w == 64 { u64::MAX } else { (1u64 << w) - 1 };
-    match rng.below(9) {
+    match rng.below(10) {
+      9 => {
+        // an index beyond the index type whose low bits are a valid index (it must not be truncated into the domain)
+        if w < 64 {
+          let k = rng.below(nc.min(40));
+          let m = 1 + rng.below(3);
+          items[i].a = (m << w) + k;
+          items[i].b_incl = items[i].a;
+          items[i].as_range = false;
+        }
+      }
       0 => {
         items[i].a = nc; // first invalid index
         items[i].b_incl = nc;
